@@ -2,7 +2,9 @@
 
   translate -> lean build + audit (Props/C17: C17_step, C17_history, C17_stale_rejected, C17_dry_unchanged, C17_error_unchanged,
      C17_two_writers_negative (F27), C17_two_writers_partial (N writers, invariant proof), C17_serial_in_loop, gen_* facts)
-  -> known finding F27 (two writers, overlapping [re-read, replace] windows, both succeed): replayed on the real code
+  -> known finding F27 (two writers, overlapping [re-check, replace] windows, both succeed): replayed on the real code
+  -> known finding C17N1 (WriteTool only: target absent at the entry look, created by another writer before this call's replace; the
+     entry decision `file_exists` is reused for the re-check, so the file is replaced without a comparison): replayed on the real code
   -> sequential histories: every history of length <= L over {content write, changes write, normalize,
      corrections_only call, external modification} x base_hash in {none, current, stale, future} is executed on the
      real tool (trie walk, one real call per trie node) and compared, envelope by envelope and byte by byte, with
@@ -11,7 +13,10 @@
   -> interleavings: two writers in two threads whose file-system calls are gated by the harness scheduler; each
      schedule is executed deterministically on the real code and on the Lean model (driver `sched`); the oracle
      (at most one writer holding the same base_hash succeeds; content at install time hashes to base_hash) is
-     evaluated on the real outcome, failures inside the class of F27 are counted as known, others reported
+     evaluated on the real outcome, failures inside the class of F27 / C17N1 are counted as known, others reported;
+     writer pairs cover every write path (WriteTool, atomic_write_octave, CLI) on an existing file AND on a path that is absent
+     when the writers enter (both carrying the same base_hash); the family "one writer's whole call inside the other's, at every
+     position" is always run in full
   -> one event loop: two execute() coroutines gathered in one loop never interleave (dynamic side of `awaitsInExecute = []`).
 """
 from __future__ import annotations
@@ -36,6 +41,7 @@ ANCHORS = [(W, "WriteTool.execute"), (W, "WriteTool._validate_path"), (W, "Write
            (FO, "atomic_write_octave"), (FO, "validate_octave_path"), (FO, "compute_hash"), (CLI, "write")]
 
 NEVER = C.DOC.format(a=424242, b="a version nobody ever wrote")
+GONE = C.DOC.format(a=31337, b="the version both writers had read before the file was removed")
 BROKEN = "A::[1,2\n"
 HASHES = ("none", "cur", "stale", "future")
 
@@ -341,7 +347,22 @@ def pair_scenarios(rng):
         "P6-cur-vs-stale": {"entry": "tool", "init": old, "writers": [{"kind": "W", "content": wa, "base": "cur"}, {"kind": "W", "content": wb, "base": "stale"}]},
         "P7-blind-blind": {"entry": "tool", "init": old, "writers": [{"kind": "W", "content": wa, "base": "none"}, {"kind": "W", "content": wb, "base": "none"}]},
         "P8-create-create": {"entry": "tool", "init": None, "writers": [{"kind": "W", "content": wa, "base": "cur"}, {"kind": "W", "content": wb, "base": "cur"}]},
+        # --- targets ABSENT when the first writer enters, both writers carry the same base_hash, every write path.
+        # What base_hash means on an absent path (write.py `base_hash and file_exists`, file_ops.py `base_hash and path_obj.exists()`):
+        # nothing is compared, the call is a create.  "cur" = sha256("") ; "gone" = hash of the document both writers had read
+        # before it was removed (clean-up, branch switch).  As soon as one writer has installed, the path holds a text that
+        # does not hash to the other's base_hash.
+        "P9-absent-atomic": {"entry": "atomic", "init": None, "writers": [{"kind": "W", "content": wa, "base": "cur"}, {"kind": "W", "content": wb, "base": "cur"}]},
+        "P10-absent-cli": {"entry": "cli", "init": None, "writers": [{"kind": "W", "content": wa, "base": "cur"}, {"kind": "W", "content": wb, "base": "cur"}]},
+        "P11-gone-tool": {"entry": "tool", "init": None, "writers": [{"kind": "W", "content": wa, "base": "gone"}, {"kind": "W", "content": wb, "base": "gone"}]},
+        "P12-gone-atomic": {"entry": "atomic", "init": None, "writers": [{"kind": "W", "content": wa, "base": "gone"}, {"kind": "W", "content": wb, "base": "gone"}]},
+        "P13-gone-cli": {"entry": "cli", "init": None, "writers": [{"kind": "W", "content": wa, "base": "gone"}, {"kind": "W", "content": wb, "base": "gone"}]},
+        # the CLI on an existing file (the third write path of the same-base pair P1 / P5)
+        "P14-cli-same-base": {"entry": "cli", "init": old, "writers": [{"kind": "W", "content": wa, "base": "cur"}, {"kind": "W", "content": wb, "base": "cur"}]},
     }
+
+
+ABSENT_PAIRS = ("P8-create-create", "P9-absent-atomic", "P10-absent-cli", "P11-gone-tool", "P12-gone-atomic", "P13-gone-cli")
 
 
 def writer_pipeline(entry, w, baseline):
@@ -364,11 +385,73 @@ def writer_args(entry, w, target, init):
         a["base_hash"] = C.sha(init if init is not None else "")
     elif w["base"] == "stale":
         a["base_hash"] = C.sha(NEVER)
+    elif w["base"] == "gone":
+        a["base_hash"] = C.sha(GONE)
     return a
 
 
 def writer_base_text(w, init):
+    if w["base"] == "gone":
+        return GONE
     return None if w["base"] == "none" else ((init if init is not None else "") if w["base"] == "cur" else NEVER)
+
+
+class _ThreadStream:
+    """sys.stdout / sys.stderr stand-in that keeps what each thread prints apart (two CLI writers in two threads:
+    contextlib.redirect_stdout is process-global and would mix, or leak, their output)."""
+
+    def __init__(self):
+        import threading
+        self._tl = threading.local()
+
+    def _buf(self):
+        if not hasattr(self._tl, "buf"):
+            self._tl.buf = []
+        return self._tl.buf
+
+    def write(self, s):
+        self._buf().append(s if isinstance(s, str) else s.decode("utf-8", "replace"))
+        return len(s)
+
+    def flush(self):
+        return None
+
+    def isatty(self):
+        return False
+
+    def take(self):
+        b = "".join(self._buf())
+        self._tl.buf = []
+        return b
+
+
+def _cli_call_threads(out, err):
+    """call_entry('cli', ...) with per-thread capture instead of redirect_stdout (same result view)."""
+    def call(entry, args):
+        from octave_mcp.cli.main import cli
+        argv = ["write", args["target_path"]]
+        if args.get("content") is not None:
+            argv += ["--content", args["content"]]
+        if args.get("changes") is not None:
+            argv += ["--changes", json.dumps(args["changes"])]
+        if args.get("base_hash"):
+            argv += ["--base-hash", args["base_hash"]]
+        out.take(), err.take()
+        code = 0
+        try:
+            cli.main(args=argv, prog_name="octave", standalone_mode=False)
+        except SystemExit as e:
+            code = e.code if isinstance(e.code, int) else (0 if e.code is None else 1)
+        except BaseException as e:
+            if isinstance(e, KeyboardInterrupt):
+                raise
+            return {"status": "raised", "exc": type(e).__name__, "msg": str(e)[:200]}
+        h = None
+        for line in out.take().split("\n"):
+            if line.startswith("canonical_hash: "):
+                h = line[len("canonical_hash: "):].strip()
+        return {"status": "success" if code == 0 else "error", "code": None if code == 0 else "E_EXIT", "hash": h, "msg": err.take()[:200]}
+    return call
 
 
 def pair_worker(item):
@@ -376,7 +459,16 @@ def pair_worker(item):
     sb = C.Sandbox({"content": sc["init"]})
     try:
         args = [writer_args(sc["entry"], w, sb.target, sc["init"]) for w in sc["writers"]]
-        r = F.run_writers(sc["entry"], args, sb.root, sb.target, C.SRC_ROOT, schedule)
+        if sc["entry"] == "cli":
+            out, err = _ThreadStream(), _ThreadStream()
+            saved = sys.stdout, sys.stderr
+            sys.stdout, sys.stderr = out, err
+            try:
+                r = F.run_writers("cli", args, sb.root, sb.target, C.SRC_ROOT, schedule, call=_cli_call_threads(out, err))
+            finally:
+                sys.stdout, sys.stderr = saved
+        else:
+            r = F.run_writers(sc["entry"], args, sb.root, sb.target, C.SRC_ROOT, schedule)
         final = read_text_state(sb.target)
         tmps = C.tmp_files(sb.parent)
         return {"results": r["results"], "records": r["records"], "granted": r["granted"], "errors": r["errors"], "final": final, "tmps": tmps,
@@ -417,17 +509,20 @@ def pair_model_req(sc, run, schedule):
 
 
 def windows(records, n_writers=2):
-    """For every writer that reaches os.replace: (global index of the first call of its re-read step, global index of its
-    replace call).  A writer that does not re-read (no base_hash) has the degenerate window [replace, replace]."""
+    """For every writer that reaches os.replace: (global index of the first call of its re-check, global index of its
+    replace call).  The re-check is the writer's LAST look at the target after it has written its temp file: the re-read
+    (open / read_text), or — on a path the re-check finds absent, where there is nothing to read — the `exists()` probe that
+    found it absent.  A writer that does not look at the target again (no base_hash; or a decision taken earlier and
+    reused) has the degenerate window [replace, replace]."""
     res = {}
     for w in range(n_writers):
         mine = [(gi, r) for gi, r in enumerate(records) if r["w"] == w]
         rep = next((gi for gi, r in mine if r["kind"] == "replace"), None)
         if rep is None:
             continue
-        reads = [gi for gi, r in mine if r["kind"] in ("open_r", "read_text") and r["role"] == "target" and gi < rep
+        looks = [gi for gi, r in mine if r["kind"] in ("open_r", "read_text", "exists", "os_path_exists") and r["role"] == "target" and gi < rep
                  and any(r2["kind"] == "mkstemp" and g2 < gi for g2, r2 in mine)]
-        res[w] = (reads[-1], rep) if reads else (rep, rep)
+        res[w] = (looks[-1], rep) if looks else (rep, rep)
     return res
 
 
@@ -438,28 +533,55 @@ def overlapping_reread_replace_windows(records) -> bool:
     return any(a[0] <= b[1] and b[0] <= a[1] for a, b in itertools.combinations(ws, 2))
 
 
+def install_over_file_created_after_writetool_entry_look(sc, records) -> bool:
+    """Class predicate of C17N1 (input = write path + executed schedule): a WriteTool.execute call that carries base_hash
+    looked at the target ONCE, at entry (`file_exists = path_obj.exists()`), found it absent, and another writer's successful
+    os.replace landed between that look and this call's own os.replace.  (WriteTool reuses the entry decision for the
+    re-check before os.replace; core/file_ops.atomic_write_octave — also behind the CLI — asks the file system again and is
+    NOT in this class.)"""
+    if sc["entry"] != "tool":
+        return False
+    present = sc["init"] is not None
+    entry_look = {}     # writer -> (global index, target present?) of its first look outside the validators
+    reps = []           # (global index, writer) of successful replaces
+    for gi, r in enumerate(records):
+        if r["kind"] == "exists" and r["role"] == "target" and r["caller"] not in F.VALIDATORS and r["w"] not in entry_look:
+            entry_look[r["w"]] = (gi, present, r["caller"])
+        if r["kind"] == "replace" and r["ok"]:
+            reps.append((gi, r["w"]))
+            present = True
+    for gi, w in reps:
+        look = entry_look.get(w)
+        if look is None or look[1] or look[2] != "execute" or writer_base_text(sc["writers"][w], sc["init"]) is None:
+            continue
+        if any(w2 != w and look[0] < g2 < gi for g2, w2 in reps):
+            return True
+    return False
+
+
 def pair_oracle(sc, run):
     """(why_class, why) list from the property text, on the real outcome."""
     bad = []
     init = sc["init"]
     res = run["results"]
-    # writers that hold the same base_hash for the existing file
-    holders = [i for i, w in enumerate(sc["writers"]) if w["base"] == "cur"]
-    succ = [i for i in holders if res[i] and res[i]["status"] == "success"]
-    if init is not None and len(succ) > 1:
-        bad.append(("lost-update", f"writers {succ} all hold base_hash of the same version and all succeeded"))
-    # content at the moment of each install must hash to the installer's base_hash
+    # writers that hold the same base_hash for the one path (existing file: the hash of its content; absent path: any hash —
+    # after the first install the path holds a text that does not hash to it, so a second success has overwritten an
+    # acknowledged write)
+    for base in ("cur", "gone"):
+        holders = [i for i, w in enumerate(sc["writers"]) if w["base"] == base]
+        succ = [i for i in holders if res[i] and res[i]["status"] == "success"]
+        if len(succ) > 1:
+            bad.append(("lost-update", f"writers {succ} all hold the same base_hash for "
+                                       f"{'the same version' if init is not None else 'a path that was absent'} and all succeeded"))
+    # content at the moment of each install must hash to the installer's base_hash (installing over NOTHING is a create:
+    # the guard is documented "when file exists"; whether the file exists is a fact at the moment of the install)
     content = init
     installs = []
-    absent_at_entry = {}
     for r in run["records"]:
-        if r["kind"] == "exists" and r["role"] == "target" and r["caller"] not in F.VALIDATORS and r["w"] not in absent_at_entry:
-            # base_hash on a file that is absent when the call looks is a create: outside the CAS clause
-            absent_at_entry[r["w"]] = content is None
         if r["kind"] == "replace" and r["ok"]:
             w = sc["writers"][r["w"]]
             bt = writer_base_text(w, init)
-            if bt is not None and content is not None and not absent_at_entry.get(r["w"]) and C.sha(content) != C.sha(bt):
+            if bt is not None and content is not None and C.sha(content) != C.sha(bt):
                 bad.append(("cas-at-install", f"writer {r['w']} installed over content that does not hash to its base_hash"))
             # what it installed: the data it wrote to its temp file
             installs.append(r["w"])
@@ -485,9 +607,12 @@ def pair_oracle(sc, run):
 def _text_of_install(sc, w, run):
     """Text a writer installed = what it would compute from the baseline it read; identified through the final hash."""
     r = run["results"][w]
-    if r and r.get("hash"):
+    hs = [r["hash"]] if r and r.get("hash") else []
+    # … or through the data the writer pushed into its temp file (an entry point that reports no hash)
+    hs += [x["data_sha"] for x in run["records"] if x["w"] == w and x["kind"] == "write" and x.get("data_sha")]
+    for h in hs:
         for t in _candidate_texts(sc):
-            if C.sha(t) == r["hash"]:
+            if C.sha(t) == h:
                 return t
     return None
 
@@ -540,6 +665,12 @@ def schedules_for(sc_id, sc, names, rng, thorough, widen):
 
     def add(tag, s):
         out.setdefault(tuple(s), tag)
+    # one writer's WHOLE call lands inside the other's, at every position: A^i B^nB A*  and  B^j A^nA B*  (members of the
+    # two-switch family; listed first and never thinned: this is where a decision taken at entry and reused later shows)
+    for i in range(nA + 1):
+        add("whole-inside", [0] * i + [1] * (nB + 4) + [0] * nA)    # (+4: the inner call may take more steps than alone; spare turns are skipped)
+    for j in range(nB + 1):
+        add("whole-inside", [1] * j + [0] * (nA + 4) + [1] * nB)
     # two-switch family at full call granularity: A^i B^j A* B*   (and with the roles swapped)
     primary = sc_id in ("P1-same-base", "P5-atomic-same-base") or thorough or widen > 1
     stepA = 1 if primary else 3
@@ -566,6 +697,12 @@ def schedules_for(sc_id, sc, names, rng, thorough, widen):
         rng.shuffle(s)
         add("random", s)
     return out
+
+
+def c17n1_schedule(names):
+    """A: validate, entry look (absent) | B: whole call | A: the rest."""
+    a = next(i for i, x in enumerate(names[0]) if x == "exists target") + 1
+    return [0] * a + [1] * (len(names[1]) + 4) + [0] * len(names[0])
 
 
 def f27_schedule(names):
@@ -647,6 +784,21 @@ def run(ctx: vlib.Ctx):
             if both and overlapping_reread_replace_windows(r["records"]):
                 ctx.known_reproduced.append((f, f"schedule {wit.get('schedule')}: both writers answered success, final file is writer "
                                                 f"{'B' if r['final'] and 'writer B' in r['final'] else 'A'}'s, the other update is lost"))
+            else:
+                ctx.notes.append(f"known finding {f['id']} no longer reproduces: results {[x and x['status'] for x in r['results']]}")
+        if f["cls"] == "install_over_file_created_after_writetool_entry_look":
+            pid = wit.get("pair", "P8-create-create")
+            sc = pairs[pid]
+            try:
+                sched = c17n1_schedule(names_of(pid))
+            except StopIteration:
+                ctx.notes.append(f"known finding {f['id']}: the witness schedule cannot be built (no entry look)")
+                continue
+            r = pair_worker((pid, sc, sched))
+            both = all(x and x["status"] == "success" for x in r["results"])
+            if both and install_over_file_created_after_writetool_entry_look(sc, r["records"]) and not overlapping_reread_replace_windows(r["records"]):
+                ctx.known_reproduced.append((f, f"schedule {wit.get('schedule')}: both writers answered success, writer A replaced the file "
+                                                f"writer B had just created without comparing it with base_hash; B's acknowledged write is lost"))
             else:
                 ctx.notes.append(f"known finding {f['id']} no longer reproduces: results {[x and x['status'] for x in r['results']]}")
 
@@ -759,10 +911,12 @@ def run(ctx: vlib.Ctx):
         pitems = [(pid, pairs[pid], replay_case["schedule"])]
     elif not replay_case:
         for pid, sc in pairs.items():
-            if not ctx.thorough and not wide and pid in ("P6-cur-vs-stale", "P7-blind-blind", "P8-create-create", "P3-changes-vs-content"):
-                # quick: the covering subset
+            if not ctx.thorough and not wide and pid in ("P6-cur-vs-stale", "P7-blind-blind", "P3-changes-vs-content", "P14-cli-same-base") + ABSENT_PAIRS:
+                # quick: the covering subset (the whole-call-inside family is kept in full)
                 sch = schedules_for(pid, sc, names_of(pid), ctx.rng, False, 1)
-                sch = dict(list(sch.items())[::4])
+                keep = {k: v for k, v in sch.items() if v == "whole-inside"}
+                rest = [(k, v) for k, v in sch.items() if v != "whole-inside"]
+                sch = {**keep, **dict(rest[::4])}
             else:
                 sch = schedules_for(pid, sc, names_of(pid), ctx.rng, ctx.thorough, ctx.widen)
             for s, tag in sch.items():
@@ -785,6 +939,8 @@ def run(ctx: vlib.Ctx):
             in_known = None
             if cls in ("lost-update", "cas-at-install") and overlap:
                 in_known = next((f for f in findings if f["cls"] == "overlapping_reread_replace_windows"), None)
+            if in_known is None and cls in ("lost-update", "cas-at-install") and install_over_file_created_after_writetool_entry_look(sc, r["records"]):
+                in_known = next((f for f in findings if f["cls"] == "install_over_file_created_after_writetool_entry_look"), None)
             if in_known is not None:
                 ctx.known_hits[in_known["id"]] = ctx.known_hits.get(in_known["id"], 0) + 1
             else:
@@ -843,4 +999,5 @@ def run(ctx: vlib.Ctx):
     ctx.assumptions = ["SHA-256 has no collision among the texts used (asserted by construction: distinct texts)",
                        "writers in separate processes behave as writers in separate threads at the granularity of file-system calls "
                        "(execute() has no shared in-process state that matters: checked by the history-dependence test)",
-                       "base_hash on an absent file is a create and outside the CAS clause"]
+                       "a call carrying base_hash that installs over NOTHING is a create and outside the CAS clause (the guard is documented "
+                       "'when file exists'); whether the file exists is a fact at the moment of the install, not at the call's entry"]
